@@ -20,7 +20,7 @@ for s in seeds:
     q.put(s)
 out = {}
 def worker(k):
-    fw, rp = "/tmp/vb/sr%d" % k, "/tmp/vb/sr%d-repo" % k
+    P = os.environ.get("SR_PREFIX", "sr"); fw, rp = "/tmp/vb/%s%d" % (P, k), "/tmp/vb/%s%d-repo" % (P, k)
     sh("rm -rf %s %s; git -C /repo worktree prune" % (fw, rp))
     sh("git -C /repo worktree add -f --detach %s HEAD" % rp)
     sh("mkdir -p %s && rsync -a --exclude build --exclude 'coq/gen' --exclude '.git' --exclude replay --exclude evidence --exclude seeded --exclude seeded-harmless %s/ %s/" % (fw, ROOT, fw))
